@@ -130,7 +130,8 @@ impl StringGenerator {
         let mut sgr = Vec::new();
         let mut sgr_tc = Vec::new();
 
-        let fg = attr.get_foreground();
+        // a bold cell with one of the first 8 colours is displayed with the bright colour: that is what has to be written
+        let fg = if attr.is_bold() && attr.get_foreground() < 8 { attr.get_foreground() + 8 } else { attr.get_foreground() };
         let cur_fore_color = buf.palette.get_color(fg);
         let cur_fore_rgb = cur_fore_color.get_rgb();
 
